@@ -112,6 +112,8 @@ BATTERY_SCRIPTS = [
     'try { false verify } except { true }',
 ]
 ENTRY = ['compile_script', 'from_src', 'assemble', 'parse_comptime']
+ALIAS_CONTEXTS = ['%s', 'op_push1 x01 %s', 'op_push2 x0102 %s', 'true if { %s }',
+                  'push x01 %s pop0', 'op_push1 d1 x07 %s']
 RUN_SCRIPTS = ['msg', 'msg2', 'ct', 'inv0', 'inv1', 'inv2', 'xfer', 'sign',
                'fail', 'cachekey']
 NESTS = ['top', 'if', 'try', 'loop', 'call', 'eval', 'if_call', 'if_try_call']
@@ -553,6 +555,24 @@ def probe_registry(w):
             expr = ['exc', 'ScriptExecutionError']
         if r != expr:
             bad.append(['contracts/invoke', [cid.hex(), r], expr])
+    # the registry also reaches the later scripts of run_auth_scripts
+    for cid in sorted(IDS.values()):
+        _pin()
+        w.log = []
+        r = _outcome(lambda: F.run_auth_scripts(
+            [T.compile_script('push d0 push x%s' % cid.hex()), T.compile_script('true pop0'),
+             T.compile_script('invoke pop0 true')]))
+        kind = m.contracts.get(cid)
+        want = kind is not None and 'CanBeInvoked' in SATISFIES[kind]
+        if r != ['ok', want]:
+            bad.append(['contracts/invoke_from_third_auth_script', [cid.hex(), r], want])
+    _pin()
+    w.log = []
+    r = _outcome(lambda: F.run_auth_scripts(
+        [T.compile_script('true'), T.compile_script('get_message x00 pop0')], {'sigfield1': FIELD}))
+    obs = sorted(e[1] for e in w.log if e[0] == 'P' and e[2] == 'se')
+    if obs != exp or r != ['ok', True]:
+        bad.append(['plugins/signature_extensions_in_second_auth_script', [obs, r], exp])
     # compiling is also an execution: comptime blocks (`~! { ... }`) run at compile
     # time with the registries of that moment, so the bytes a source compiles to
     # depend on the *current* registry contents -- for the same text, every time
@@ -591,18 +611,22 @@ def probe_registry(w):
         expr = ['ok', None] if m.contract_ok(kind) else ['exc', 'ScriptExecutionError']
         if r != expr:
             bad.append(['interfaces/add_contract_acceptance', [kind, r], expr])
-    # aliases
+    # aliases: alone, and in the syntactic positions where the compiler has to
+    # tell an op symbol from an operand (after the size-less PUSH1 / PUSH2 forms,
+    # inside a block, between other ops)
     for sp in ('yea', 'Yea', 'YEA', 'twin', 'TWIN'):
-        r = _outcome(lambda: T.compile_script(sp).hex())
         tgt = m.aliases.get(sp.upper())
-        if tgt is None:
-            ok = r[0] == 'exc'
-            expr = ['exc', 'SyntaxError']
-        else:
-            expr = ['ok', T.compile_script(tgt).hex()]
-            ok = r == expr
-        if not ok:
-            bad.append(['aliases/compile', [sp, r], expr])
+        for ctx in ALIAS_CONTEXTS:
+            r = _outcome(lambda: T.compile_script(ctx % sp).hex())
+            if tgt is None:
+                ok = r[0] == 'exc'
+                expr = ['exc', 'SyntaxError']
+            else:
+                expr = ['ok', T.compile_script(ctx % tgt).hex()]
+                ok = r == expr
+            if not ok:
+                bad.append(['aliases/compile', [ctx % sp, r], expr])
+                break
     w.log = []
     return bad
 
